@@ -253,6 +253,9 @@ class comm_pattern {
                         datatype<rhs_type>(), recv.nbr[i], tag_exc_vals, comm, &recv.req[i]);
 
             // Start sending our data to neighbours.
+#ifdef AMGCL_VERIF
+            AMGCL_VERIF_POINT("mpi.start_exchange", static_cast<long>(send.nbr.size()));
+#endif
             if (!send.val.empty()) {
                 (*gather)(x, send.val);
 
@@ -278,6 +281,9 @@ class comm_pattern {
                 MPI_Irecv(&recv_val[recv.ptr[i]], recv.ptr[i+1] - recv.ptr[i],
                         datatype<T>(), recv.nbr[i], tag_exc_vals, comm, &recv.req[i]);
 
+#ifdef AMGCL_VERIF
+            AMGCL_VERIF_POINT("mpi.exchange", static_cast<long>(send.nbr.size()));
+#endif
             for(size_t i = 0; i < send.nbr.size(); ++i)
                 MPI_Isend(const_cast<T*>(&send_val[send.ptr[i]]), send.ptr[i+1] - send.ptr[i],
                         datatype<T>(), send.nbr[i], tag_exc_vals, comm, &send.req[i]);
